@@ -1,0 +1,15 @@
+//go:build !verif
+
+// Package verifhook is the instrumentation seam used by the external
+// verification harness. Without the "verif" build tag every hook is an empty
+// function and Enabled is a false constant, so the calls compile to nothing.
+package verifhook
+
+// Enabled reports whether the hooks are compiled in.
+const Enabled = false
+
+// Emit records that the step named by site happened for object id.
+func Emit(site string, id uint64, detail string) {}
+
+// Yield is a scheduling point at which a harness may hold the caller.
+func Yield(site string, id uint64) {}
